@@ -107,7 +107,7 @@ func c18(c *core.Ctx) {
 		cp := copies[0]
 		args := cp.Instr.Common().Args
 		fl := ssax.NewFlow()
-		c.Check(fl.OnlyFrom(args[0], rd.Params[1].Name()), "C18.R1", "wsConn.Read|copy-dst", ipos(c, cp.Instr), "copies into the caller's buffer", "copy does not target the caller's buffer")
+		c.Check(fl.OnlyFrom(args[0], paramOf(rd, 1).Name()), "C18.R1", "wsConn.Read|copy-dst", ipos(c, cp.Instr), "copies into the caller's buffer", "copy does not target the caller's buffer")
 		sl, isSl := args[1].(*ssa.Slice)
 		okSrc := isSl && sl.High == nil && sl.Low != nil && ssax.LoadOfField(rF)(sl.Low) && ssax.AnyIn(ssax.Backward(sl.X), ssax.LoadOfField(bufF))
 		c.Check(okSrc, "C18.R1", "wsConn.Read|copy-src", ipos(c, cp.Instr), "copies from buf[r:]", "the copy source is not buf[r:] (bytes are skipped, repeated or cut)")
@@ -221,7 +221,7 @@ func c18(c *core.Ctx) {
 		args := ssax.Args(wms[0].Instr)
 		k, isC := constInt(args[0])
 		c.Check(isC && k == 2, "C18.R3", "wsConn.Write|binary", ipos(c, wms[0].Instr), "written as BinaryMessage", "wsConn.Write does not send a BinaryMessage")
-		c.Check(args[1] == ssa.Value(wr.Params[1]), "C18.R3", "wsConn.Write|payload", ipos(c, wms[0].Instr), "payload is the byte slice written", "wsConn.Write sends something else than the bytes it was given")
+		c.Check(args[1] == ssa.Value(paramOf(wr, 1)), "C18.R3", "wsConn.Write|payload", ipos(c, wms[0].Instr), "payload is the byte slice written", "wsConn.Write sends something else than the bytes it was given")
 		c.Check(!ssax.InLoop(wms[0].Instr.Block()), "C18.R3", "wsConn.Write|single-message", ipos(c, wms[0].Instr), "one message per Write", "wsConn.Write splits or repeats the payload")
 		errv := ssax.ResultValue(wms[0].Instr, 0)
 		if errv != nil {
@@ -238,7 +238,7 @@ func c18(c *core.Ctx) {
 					return
 				}
 				b, isB := call.Call.Value.(*ssa.Builtin)
-				if !isB || b.Name() != "len" || call.Call.Args[0] != ssa.Value(wr.Params[1]) {
+				if !isB || b.Name() != "len" || call.Call.Args[0] != ssa.Value(paramOf(wr, 1)) {
 					okLen = false
 				}
 			})
